@@ -1,46 +1,54 @@
-"""Source translator for C07:  lib/gettext.py `parse_plural_expression`, `parse_plural_forms` and lib/check/__init__.py
+"""Source translator for C07 (and C01):  lib/gettext.py `parse_plural_expression`, `parse_plural_forms` and lib/check/__init__.py
 `Checker.check_plurals` (the whole method)  ->  coq/Generated/PluralsSrc.v  (python `ast` -> Gallina text).
 
 Proofs/PluralsSrc.v proves the generated definitions equal to the hand-written model (Model/PluralForms.v, PluralFormsHead.v);
-Props/C07.v and Props/C01.v restate that (C07_source_tie_*, C01_source_tie_*).  An edit of the Python code changes the
-generated text and those proofs stop compiling.  FAIL CLOSED: anything outside the subset below raises Unsupported; the
-function concerned is then emitted as `Definition <name> : unit := tt.` (no tie lemma compiles) and main() raises.
-The Gallina helpers used below are hand-written in coq/Model/PluralFormsPy.v and coq/Lib/PySrc.v.
+Props/C07.v and Props/C01.v restate that (C07_source_tie_*, C01_source_tie_check_plurals_total).  An edit of the Python code
+changes the generated text and those proofs stop compiling.  FAIL CLOSED: anything outside the subset below raises
+Unsupported; the function concerned is then emitted as `Definition <name> : unit := tt.` (no tie lemma compiles) and main()
+raises.  The Gallina helpers used below are hand-written in coq/Model/PluralFormsPy.v and coq/Lib/PySrc.v.
 
 Result of a function body: `sres T` (SRet v = return v; SAssert = failing assert; SRaise x = exception x).  check_plurals
 returns nothing but has two effects, which are threaded as variables: out_ (the tags emitted so far, in order) and
 ctx_plural_preimage; its every `return` / end of body is `SRet (out_, ctx_plural_preimage)`.
-Everything external is a field of the record W : pl_world (oracles and inputs, table ATOMS / METHODS / ATTRS / CALLS):
-the compiled regex's .search, match.group/start/end, int(x, 10), intexpr.Parser().parse, expr(n), expr.codomain(),
-expr.period(), ctx.metadata['Plural-Forms'], ctx.language(.get_plural_forms()), ctx.is_template, ctx.file and the four
-message attributes read.  The regex pattern itself is emitted as the constant src_plural_forms_regex.
+Everything external is a field of the record W : pl_world (tables ATOMS / ATTRS / METHODS and call()): the compiled regex's
+.search (its pattern is emitted as the constant src_plural_forms_regex; parse_plural_forms is translated twice, with the
+keyword-only `strict` statically True / False), match.group / start / end, int(x, 10), intexpr.Parser().parse, expr(n),
+expr.codomain(), expr.period(), ctx.metadata['Plural-Forms'], ctx.language, .get_plural_forms(), ctx.is_template, ctx.file
+and the four message attributes read.  Names are assumed to have their usual meaning (builtins, the imported modules); the
+names of table RESERVED are never accepted as assignment targets.
 
 Kinds (static types): Z, bool, str, E (Expression), M (match), L, G (message), zinf (int or float inf), smsg, rtext, range,
-targ; none (statically None), deco (text that only decorates a diagnostic: no Gallina value), nil ([] of unknown element
-kind), parser; opt K, list K, tup K.., dict V (int keys; sorted association list).  Where control paths meet, kinds are
-joined: none + K = opt K, Z + zinf = zinf, nil + list K = list K, componentwise on tuples; a variable whose kinds do not
-join, or that is not assigned on every path, is unusable afterwards.  Python variable x is the Gallina binder v_x.
+targ; none (statically None), deco (text that only decorates a diagnostic: no Gallina value), nil ([] / {} of unknown element
+kind), parser, keys; opt K, list K, tup K.., dict V (int keys; a finite map as its key-sorted association list: dicts are
+never iterated directly).  Where control paths meet, kinds are joined: none + K = opt K, Z + zinf = zinf, nil + list K =
+list K, componentwise on tuples; a variable whose kinds do not join, or that is not assigned on every path, is unusable
+afterwards.  Python variable x is the Gallina binder v_x (rebinding = shadowing).
+Lists and dicts are values: `l += [..]`, `d[k] = v`, `d[k] += [i]` are accepted only on a variable that holds a list / dict
+created by a literal or collections.defaultdict(list) in this function and not shared since (no `y = x`, no container inside
+a tuple / list / dict value; dict(x) ends it for x).
 
 Control.  Statements are translated in continuation-passing style: tr(stmts, env, K) where K says where `end of list`,
 break, continue and each exception class caught by an enclosing `except` go.
-  S; rest   when S can complete normally at several places and rest is not empty: rest becomes a continuation: a top-level
-            `Definition <f>_k<i> W <live variables>` (inside a loop body: a local `let k<i>_ := fun <variables> => ..`), and
-            each place calls it with the current values.  With one such place rest is translated there; with none -> reject.
-  if c: A else: B ; rest    when A and B only assign / tag (no call that can raise, no control transfer):
+  S; rest   when S can complete normally at several places and rest is not empty: rest becomes a continuation, a top-level
+            `Definition <f>_k<i> W <the variables it reads>`, and each place calls it with the current values (not inside
+            a loop body).  With one such place rest is translated there; with none -> reject.  (The places and the kinds
+            of the variables there are found by a dry run of the translation of S.)
+  if c: A else: B   when A and B only assign / tag (no call that can raise, no assert, no control transfer):
             `let '(x, y) := if c then (A; (x, y)) else (B; (x, y)) in rest` over the variables stored in A or B
             (nothing at all when these are all `deco`).  Otherwise `if c then A' else B'` with continuations as above.
   if x is None / is not None (x a variable or an input field of kind opt K)  -> `match x with Some v_x => .. | None => .. end`;
-  `if a and b:` without else -> nested ifs;  `if e cmp CALL:` binds CALL first;  a statically known test keeps one branch.
+  `if a and b:` without else, where a conjunct is such a test or contains a CALL -> nested ifs;  `if e cmp CALL:` binds
+  CALL first (e must be pure);  a statically known test keeps one branch.
   for T in L: B [else: C] ; rest -> top-level `Fixpoint <f>_loop<i> W <variables> (l_ : list _)`: `[]` => C then rest;
             `T :: l_` => B where end of B / continue = the recursive call on l_ with the current values, break = rest.
-            L: a list variable, range(n), sorted(<dict>), sorted(<dict>.items()).  No loop inside a loop body.
+            L: a list, range(n) (zrange_list), sorted(<dict>), sorted(<dict>.items()).  No loop inside a loop body.
   try: B except X1: H1 except X2: H2 ; rest -> B with the handlers added to K; every raise site in B whose exception is
             in Xi continues with Hi (then rest).  Classes: table EXN (PluralExpressionSyntaxError is checked to be a
             subclass of PluralFormsSyntaxError and both are XPluralForms).  No else / finally / `as` / bare except.
   v = CALL / (a, b) = CALL / return CALL / if e cmp CALL -> `scall CALL (fun v => rest) <dispatch>` where <dispatch> sends an
-            exception raised by CALL to the enclosing handlers, else SRaise.  CALL (can raise; table in call()): expr(i) and
-            locally_correct_expr(i) (kind E or opt E: None(i) is a TypeError), x.codomain() / x.period() (may return None: sopt),
-            int(x, 10), parser.parse(s), misc.format_range(r, max=N), the translated functions, and
+            exception raised by CALL to the enclosing handlers, else SRaise.  CALL (can raise; call()): expr(i) for a variable
+            of kind E or opt E (None(i) is a TypeError), x.codomain() / x.period() (may return None: sopt), int(x, 10),
+            parser.parse(s), misc.format_range(r, max=N), the translated functions, and
             [(a, b) for a, b in map(gettext.parse_plural_forms, L) if c] -> smap then filter.
   return / return e; raise C; assert c -> `if negb c then SAssert else rest`; pass; break; continue.
   [x] = e, [[a, b]] = e -> `match e with [x] => rest | _ => <ValueError> end`;  x = y = None;  d[k] = v -> dict_set;
@@ -48,10 +56,11 @@ break, continue and each exception class caught by an enclosing `except` go.
   self.tag(NAME, args..) -> `out_ ++ [T..]` (table TAGS): deco / constant arguments are dropped, the rest must have
             exactly the kinds recorded for NAME; the -unused- variants carry `false`.  Messages (table MSGS):
             f'f({i}) = {fi} >= {n}', safe_format('f({}): integer overflow', i), .. are matched by their constant parts.
-Expressions (pure): int / None / True / False / 1e999 (PInf); names; + - *; comparisons on ints (and int == opt int);
-  not / and / or; truth of str, list, dict, opt list; len; x in d / not in d; tuples; s[:a], s[a:] (str_to, str_from);
-  l[:-1] (removelast); sum((a, b)); range(a) / range(a, b) as the pair (lo, hi); sorted(set(l)) on strings; dict(d);
-  collections.defaultdict(list); m.group(i), m.start(), m.end(); the inputs and attributes of tables ATOMS / ATTRS.
+Expressions (pure, cannot raise): int / None / True / False / 1e999 (PInf); names; + - *; < <= > >= == != on ints (int ==
+  opt int; zinf only <); x is None; not; and / or (on bools, or as a test); truth of int, str, list, dict, opt list; len;
+  k in d / not in d; tuples; s[:a], s[a:] (str_to, str_from); l[:-1] (removelast); sum((a, b)); range(a) / range(a, b) as the
+  pair (lo, hi); sorted(set(l)) on strings; sorted(d), sorted(d.items()), d.keys() (only unpacked), dict(d);
+  collections.defaultdict(list); m.group(i), m.start(), m.end(); the inputs and attributes of tables ATOMS / ATTRS / METHODS.
 Decoration (no value, assumed not to raise): string constants, f-strings / tags.safe_format / tags.safestr / str.join /
   message_repr over values of kind Z, str, deco, list str, G.
 """
@@ -62,7 +71,11 @@ import re
 REPO = os.environ.get('VERIF_REPO') or '/repo'
 BASE = {'Z': 'Z', 'bool': 'bool', 'str': 'str', 'E': 'E', 'M': 'M', 'L': 'L', 'G': 'G', 'zinf': 'zinf', 'smsg': 'smsg',
         'rtext': '(Z * Z * Z)', 'range': '(Z * Z)', 'targ': 'targ', 'stag': 'stag'}
-NOVALUE = ('none', 'deco', 'nil', 'parser', 'strconst')
+NOVALUE = ('none', 'deco', 'nil', 'parser', 'strconst', 'fresh')
+# names whose usual meaning the tables below rely on: never assignment targets
+RESERVED = {'self', 'ctx', 'len', 'sorted', 'set', 'range', 'sum', 'dict', 'int', 'map', 'str', 'tags', 'misc', 'gettext', 'intexpr', 'collections', 're',
+            'message_repr', '_parse_plural_forms', 'parse_plural_expression', 'PluralFormsSyntaxError', 'PluralExpressionSyntaxError',
+            'OverflowError', 'ZeroDivisionError'}
 ZZ = ('tup', 'Z', 'Z')
 ATOMS = {"ctx.metadata['Plural-Forms']": ('(w_values W)', ('list', 'str')), 'ctx.language': ('(w_language W)', ('opt', 'L')),
          'ctx.is_template': ('(w_is_template W)', 'bool'), 'ctx.file': ('(w_file W)', ('list', 'G'))}
@@ -157,6 +170,21 @@ def coerce(t, a, b):
     if a[0] == b[0] == 'tup' and len(a) == 3:
         return '(%s, %s)' % (coerce('(fst %s)' % t, a[1], b[1]), coerce('(snd %s)' % t, a[2], b[2]))
     raise Unsupported('no coercion from %s to %s' % (a, b))
+
+
+def container(k):
+    return k == 'nil' or isinstance(k, tuple) and (k[0] in ('list', 'dict') or any(container(x) for x in k[1:] if x))
+
+
+def extend(env, upd, fresh=()):
+    """env after binding the names of upd; '#x' marks a list / dict created here and not shared (so that x += .., x[k] = .. are local)"""
+    new = dict(env, **upd)
+    for n in upd:
+        new.pop('#' + n, None)
+        if n in RESERVED:
+            raise Unsupported('assignment to the reserved name %s' % n)
+    new.update({'#' + n: 'fresh' for n in fresh})
+    return new
 
 
 def join_envs(envs):
@@ -267,7 +295,7 @@ class Fn:
                 return ('(removelast %s)' % t, k)
         elif isinstance(e, ast.Tuple) and len(e.elts) >= 2:
             vs = [self.ex(x, env) for x in e.elts]
-            if all(valued(k) for _, k in vs):
+            if all(valued(k) and not container(k) for _, k in vs):
                 return ('(%s)' % ', '.join(t for t, _ in vs), ('tup',) + tuple(k for _, k in vs))
         elif isinstance(e, ast.List):
             return self.lst([self.ex(x, env) for x in e.elts], e)
@@ -277,8 +305,8 @@ class Fn:
             return ('(%s %s %s)' % (self.z(e.left, env), {ast.Add: '+', ast.Sub: '-', ast.Mult: '*'}[type(e.op)], self.z(e.right, env)), 'Z')
         elif isinstance(e, ast.UnaryOp) and isinstance(e.op, ast.Not):
             return ('(negb %s)' % self.truth(e.operand, env), 'bool')
-        elif isinstance(e, ast.BoolOp):
-            return ('(%s)' % (' && ' if isinstance(e.op, ast.And) else ' || ').join(self.truth(v, env) for v in e.values), 'bool')
+        elif isinstance(e, ast.BoolOp) and all(self.ex(v, env)[1] == 'bool' for v in e.values):      # on bools `and` / `or` return a bool
+            return ('(%s)' % (' && ' if isinstance(e.op, ast.And) else ' || ').join(self.ex(v, env)[0] for v in e.values), 'bool')
         elif isinstance(e, ast.Compare) and len(e.ops) == 1:
             return self.compare(e, env)
         elif isinstance(e, ast.JoinedStr):
@@ -291,7 +319,7 @@ class Fn:
         if not vs:
             return ('[]', 'nil')
         ks = {k for _, k in vs}
-        if len(ks) == 1 and valued(vs[0][1]):
+        if len(ks) == 1 and valued(vs[0][1]) and not container(vs[0][1]):
             return ('[%s]' % '; '.join(t for t, _ in vs), ('list', vs[0][1]))
         if ks <= {'Z', 'deco', 'strconst'}:          # the arguments collected for inconsistent-number-of-plural-forms
             return ('[%s]' % '; '.join({'Z': 'AInt %s' % t, 'deco': 'ADeco', 'strconst': 'AConst'}[k] for t, k in vs), ('list', 'targ'))
@@ -304,6 +332,8 @@ class Fn:
         return t
 
     def truth(self, e, env):
+        if isinstance(e, ast.BoolOp):
+            return '(%s)' % (' && ' if isinstance(e.op, ast.And) else ' || ').join(self.truth(v, env) for v in e.values)
         t, k = self.ex(e, env)
         if k == 'bool':
             return t
@@ -495,7 +525,7 @@ class Fn:
             if k == ('list', 'str') and rk[0] == 'tup' and len(rk) == len(names) + 1 and len(set(names)) == len(names):
                 self.pure = False
                 pat = "'(%s)" % ', '.join(cn(x) for x in names)
-                c = self.truth(g.ifs[0], dict(env, **dict(zip(names, rk[1:])))) if g.ifs else 'true'
+                c = self.truth(g.ifs[0], extend(env, dict(zip(names, rk[1:])))) if g.ifs else 'true'
                 return ('(scall (smap (%s W) %s) (fun r_ => SRet (filter (fun %s => %s) r_)) SRaise)' % (name, t, pat, c), ('list', rk))
         bad(e, 'list comprehension')
 
@@ -611,10 +641,10 @@ class Fn:
         if len(s.targets) > 1:
             if not (all(isinstance(t, ast.Name) for t in s.targets) and ast.unparse(v) == 'None'):
                 bad(s, 'chained assignment')
-            return self.tr(rest, dict(env, **{t.id: 'none' for t in s.targets}), k)
+            return self.tr(rest, extend(env, {t.id: 'none' for t in s.targets}), k)
         if c:
             pat, upd = self.bind(tg, c[1], s)
-            return 'scall %s (fun %s%s =>\n%s)\n  %s' % (c[0], "'" if pat[0] == '(' else '', pat, ind(self.tr(rest, dict(env, **upd), k)),
+            return 'scall %s (fun %s%s =>\n%s)\n  %s' % (c[0], "'" if pat[0] == '(' else '', pat, ind(self.tr(rest, extend(env, upd), k)),
                                                      ind(self.dispatch(env, k)).lstrip())
         t, kind = self.ex(v, env)
         if isinstance(tg, ast.List) and len(tg.elts) == 1 and (kind == 'keys' or kind[0] == 'list'):     # [x] = e
@@ -624,34 +654,38 @@ class Fn:
             if isinstance(inner, ast.List):
                 inner = ast.Tuple(inner.elts, ast.Store())
             pat, upd = self.bind(inner, ek, s)
-            return 'match %s with\n| [%s] =>\n%s\n| _ => %s\nend' % (t, pat, ind(self.tr(rest, dict(env, **upd), k)), self.raise_('XValue', env, k))
-        if isinstance(tg, ast.Subscript) and isinstance(tg.value, ast.Name) and join(env.get(tg.value.id), ('dict', kind)) == ('dict', kind) and valued(kind):
+            return 'match %s with\n| [%s] =>\n%s\n| _ => %s\nend' % (t, pat, ind(self.tr(rest, extend(env, upd), k)), self.raise_('XValue', env, k))
+        if isinstance(tg, ast.Subscript) and isinstance(tg.value, ast.Name) and '#' + tg.value.id in env and valued(kind) and not container(kind) \
+                and join(env[tg.value.id], ('dict', kind)) == ('dict', kind):
             d = tg.value.id
             return 'let %s := dict_set %s %s %s in\n%s' % (cn(d), self.var(d, env, s)[0], self.z(tg.slice, env), t,
-                                                           self.tr(rest, dict(env, **{d: ('dict', kind)}), k))
+                                                           self.tr(rest, extend(env, {d: ('dict', kind)}, [d]), k))
         key = ast.unparse(tg)
         if isinstance(tg, ast.Name) or key == 'ctx.plural_preimage' and self.effects:
             if kind == 'strconst':
                 kind = 'deco'
-            if kind == 'keys':
-                bad(s, 'a key view is only unpacked')
-            if not valued(kind):
-                return self.tr(rest, dict(env, **{key: kind}), k)
-            return 'let %s := %s in\n%s' % (cn(key), t, self.tr(rest, dict(env, **{key: kind}), k))
+            if kind == 'keys' or container(kind) and isinstance(v, (ast.Name, ast.Attribute)):
+                bad(s, 'a second name for a key view / list / dict')
+            fresh = [key] if isinstance(v, (ast.List, ast.Dict)) or ast.unparse(v).startswith('collections.defaultdict(') else []
+            new = extend(env, {key: kind}, fresh)
+            if isinstance(v, ast.Call) and ast.unparse(v.func) == 'dict':       # a shallow copy: its argument is shared from now on
+                new.pop('#' + ast.unparse(v.args[0]), None)
+            return self.tr(rest, new, k) if not valued(kind) else 'let %s := %s in\n%s' % (cn(key), t, self.tr(rest, new, k))
         if isinstance(tg, ast.Tuple) and kind[0] == 'tup':
             pat, upd = self.bind(tg, kind, s)
-            return "let '%s := %s in\n%s" % (pat, t, self.tr(rest, dict(env, **upd), k))
+            return "let '%s := %s in\n%s" % (pat, t, self.tr(rest, extend(env, upd), k))
         bad(s, 'assignment')
 
     def st_AugAssign(self, s, rest, env, k):
         tg = s.target
-        if isinstance(s.op, ast.Add) and isinstance(tg, ast.Name) and tg.id in env and isinstance(s.value, ast.List) and s.value.elts:
+        if isinstance(s.op, ast.Add) and isinstance(tg, ast.Name) and '#' + tg.id in env and isinstance(s.value, ast.List) and s.value.elts:
             t, kind = self.ex(s.value, env)
             j = join(env[tg.id], kind)
             if j is not None and j[0] == 'list':
-                return 'let %s := %s ++ %s in\n%s' % (cn(tg.id), self.var(tg.id, env, s)[0], t, self.tr(rest, dict(env, **{tg.id: j}), k))
+                return 'let %s := %s ++ %s in\n%s' % (cn(tg.id), self.var(tg.id, env, s)[0], t, self.tr(rest, extend(env, {tg.id: j}, [tg.id]), k))
         if isinstance(s.op, ast.Add) and isinstance(tg, ast.Subscript) and isinstance(tg.value, ast.Name) \
-                and env.get(tg.value.id) == ('dict', ('list', 'Z'), 'default') and isinstance(s.value, ast.List) and len(s.value.elts) == 1:
+                and env.get(tg.value.id) == ('dict', ('list', 'Z'), 'default') and '#' + tg.value.id in env and isinstance(s.value, ast.List) \
+                and len(s.value.elts) == 1:
             d = cn(tg.value.id)
             return 'let %s := dd_append %s %s %s in\n%s' % (d, d, self.z(tg.slice, env), self.z(s.value.elts[0], env), self.tr(rest, env, k))
         bad(s, 'augmented assignment')
@@ -674,24 +708,13 @@ class Fn:
     def continuation(self, body_of, sites, k):
         """a named continuation for code reached from several places -> (text to put in front, jump)"""
         jenv = join_envs(sites)
-        body = body_of(jenv)
         if k.inloop:
-            name = self.fresh('k') + '_'
-            ps = [v for v in jenv if valued(jenv[v])]
-            binders = ' '.join('(%s : %s)' % (cn(v), ty(jenv[v])) for v in ps) or '(_ : unit)'
-            prefix = 'let %s := fun %s =>\n%s in\n' % (name, binders, ind(body))
-            head = name
-        else:
-            name = '%s_%s' % (self.name, self.fresh('k'))
-            ps = [v for v in jenv if valued(jenv[v]) and occurs(cn(v), body)]
-            self.define('Definition', name, [(cn(v), ty(jenv[v])) for v in ps], body)
-            prefix, head = '', name + ' W'
-
-        def jump(e):
-            if any(v not in e for v in ps):
-                bad('', 'internal: variable missing at a jump')
-            return ' '.join([head] + ([coerce(cn(v), e[v], jenv[v]) if e[v] != 'nil' else '[]' for v in ps] or ['tt'] * k.inloop))
-        return prefix, jump
+            bad('', 'code reached from several places inside a loop body')
+        body = body_of(jenv)
+        name = '%s_%s' % (self.name, self.fresh('k'))
+        ps = [v for v in jenv if valued(jenv[v]) and occurs(cn(v), body)]      # the variables the continuation reads
+        self.define('Definition', name, [(cn(v), ty(jenv[v])) for v in ps], body)
+        return '', lambda e: ' '.join([name, 'W'] + [coerce(cn(v), e[v], jenv[v]) if e[v] != 'nil' else '[]' for v in ps])
 
     def define(self, kw, name, params, body, extra=''):
         sig = ' '.join('(%s : %s)' % p for p in params)
@@ -741,16 +764,18 @@ class Fn:
                 return self.tr((s.body if c == 'true' else s.orelse) + rest, env, k)
             branches, fmt = [(s.body, env), (s.orelse, env)], 'if %s then\n%%s\nelse\n%%s' % c
         build = lambda nxt: fmt % tuple(ind(self.tr(b, e, k.but(nxt=nxt))) for b, e in branches)
-        if True:
-            rec, sites = self.recorder()
-            ends = []
-            if self.dry(lambda: (build(rec), ends.extend(sites))) and len(ends) == 2:
+        rec, sites = self.recorder()
+        ends = []
+        if self.dry(lambda: (build(rec), ends.extend(sites))) and len(ends) == 2:
+            if True:
                 # both branches only assign / tag: the if computes the new values of the variables they store
                 je = join_envs(ends)
                 vs = [v for v in self.stores(s.body + s.orelse) if v in je and valued(je[v])]
-                new = dict(env, **{v: je[v] for v in self.stores(s.body + s.orelse) if v in je})
-                for v in self.stores(s.body + s.orelse):
-                    if v not in je:
+                new = dict(env)
+                for v in [x for y in self.stores(s.body + s.orelse) for x in (y, '#' + y)]:
+                    if v in je:
+                        new[v] = je[v]          # (an existing variable keeps its position: the parameter order is stable)
+                    else:
                         new.pop(v, None)
                 if not vs:
                     return self.tr(rest, new, k)
@@ -821,7 +846,7 @@ class Fn:
                 rec, sites = self.recorder()
                 back = []
                 kb = k.but(nxt=rec, cnt=rec, brk=lambda e: 'DRY', inloop=True)
-                self.dry(lambda: (self.tr(s.body, dict(lenv, **upd), kb), back.extend(sites)))
+                self.dry(lambda: (self.tr(s.body, extend(lenv, upd), kb), back.extend(sites)))
                 new = join_envs([lenv] + back)
                 if new == lenv:
                     break
@@ -834,7 +859,7 @@ class Fn:
                 sites.append(dict(e))
                 return '\0REC%d\0' % (len(sites) - 1)
             done = self.tr(s.orelse, lenv, after)
-            body = self.tr(s.body, dict(lenv, **upd), k.but(nxt=again, cnt=again, brk=nxt, inloop=True))
+            body = self.tr(s.body, extend(lenv, upd), k.but(nxt=again, cnt=again, brk=nxt, inloop=True))
             ps = [v for v in lenv if valued(lenv[v]) and (occurs(cn(v), body) or occurs(cn(v), done))]
             args = lambda e: ' '.join([name, 'W'] + [coerce(cn(v), e[v], lenv[v]) if e[v] != 'nil' else '[]' for v in ps])
             body = re.sub('\0REC(\\d+)\0', lambda m: args(sites[int(m.group(1))]) + ' l_', body)
@@ -851,6 +876,7 @@ class Fn:
                 or [ast.unparse(d) for d in a.kw_defaults] != ['True'] * len(a.kwonlyargs):
             bad(self.fdef, 'signature')
         env = {p: kd for p, kd in self.params if kd is not None}
+        RESERVED.update(self.static)
         head = ''
         if self.effects:
             env['$out'] = ('list', 'stag')
